@@ -49,6 +49,14 @@ for d in sorted(glob.glob(os.path.join(ROOT, 'seeded', '*'))):
         return 'quick+thorough' if q else ('thorough' if t else 'not in a tier of ' + prop)
     others = sorted(set(p for h in hs for p in registry.PROPS if h in registry.harnesses_for(p, 'quick')))
     meta['reported_by'] = hs
+    # keep one replayed counterexample next to the seeded change (what the check actually found)
+    import shutil
+    for r in best:
+        tag = '%s-%s-%s%s' % (sid, r['property'], r['tier'], re.sub(r'[^A-Za-z0-9\n]', '_', r['args']))
+        cand = sorted(glob.glob(os.path.join(ROOT, '.build', 'mutest', tag + '.replays', '*', '*.json')))
+        if cand:
+            shutil.copy(cand[0], os.path.join(d, 'counterexample.json'))
+            break
     meta['tier_of_own_property'] = sorted(set(tiers(h) for h in hs))
     meta['quick_checks_that_contain_a_reporting_harness'] = others
     json.dump(meta, open(mp, 'w'), indent=1)
